@@ -395,4 +395,214 @@ theorem flag_x_rx (x x0 x' x'' y : Ep) (w : List Msg) (m : Msg) (em : Emit)
   exact ⟨by rw [h2.1, f1, h0.1]; exact h.cf, by rw [h2.2.2]; exact h.lf, by rw [h2.2.1, f3, h0.2]; exact h.gb,
          h.acf, h.rcd, h.cdq, by rw [h2.2.1, f3, h0.2]; exact h.last⟩
 
+/-! ### one side: the `Client` handles and the end of the connect queue -/
+
+structure ClientInv (s : Side) : Prop where
+  /-- once the dispatcher has seen that all clients are gone, nothing is left in `connect_rx` -/
+  done : s.ep.allClientsDropped = true → s.connQ = []
+  alive : s.clientsAlive = true → Evt.allClientsDropped ∉ s.connQ ∧ s.ep.allClientsDropped = false
+  /-- `AllClientsDropped` is the end of the queue -/
+  last : ∀ pre post, s.connQ = pre ++ Evt.allClientsDropped :: post → post = []
+
+theorem clientInv_init (e : Ep) (h : e.allClientsDropped = false) : ClientInv { ep := e } :=
+  ⟨fun h' => rfl, fun _ => ⟨by simp, h⟩, fun pre post h' => by simp at h'⟩
+
+theorem append_eq_split {α} (l : List α) (x m : α) (pre post : List α) (h : l ++ [x] = pre ++ m :: post) :
+    (post = [] ∧ m = x ∧ pre = l) ∨ (∃ post', post = post' ++ [x] ∧ l = pre ++ m :: post') := by
+  induction pre generalizing l with
+  | nil =>
+    cases l with
+    | nil => simp at h; left; exact ⟨h.2, h.1.symm, rfl⟩
+    | cons a as =>
+      simp at h
+      right; exact ⟨as, h.2.symm, by simp [h.1]⟩
+  | cons p ps ih =>
+    cases l with
+    | nil => simp at h
+    | cons a as =>
+      simp at h
+      obtain ⟨h1, h2⟩ := h
+      rcases ih as h2 with ⟨hp, hm, hpre⟩ | ⟨post', hp, hl⟩
+      · left; exact ⟨hp, hm, by rw [h1, hpre]⟩
+      · right; exact ⟨post', hp, by rw [h1, hl]; rfl⟩
+
+theorem handleEvt_acd (e e' : Ep) (ev : Evt) (m : Option Msg) (h : handleEvt e ev = some (e', m)) :
+    e'.allClientsDropped = (e.allClientsDropped || ev == .allClientsDropped) := by
+  cases ev <;> simp only [handleEvt] at h <;> (repeat' split at h) <;>
+    first
+    | (simp at h; done)
+    | (simp only [Option.some.injEq, Prod.mk.injEq] at h; obtain ⟨rfl, _⟩ := h; simp)
+
+theorem clientInv_congr (s s' : Side) (h : ClientInv s) (hq : s'.connQ = s.connQ)
+    (hc : s'.clientsAlive = s.clientsAlive) (ha : s'.ep.allClientsDropped = s.ep.allClientsDropped) : ClientInv s' :=
+  ⟨by rw [ha, hq]; exact h.done, by rw [hc, hq, ha]; exact h.alive, by rw [hq]; exact h.last⟩
+
+@[simp] theorem rxHandles_clientsAlive (s : Side) (m : Msg) : (rxHandles s m).clientsAlive = s.clientsAlive := by
+  cases m <;> rfl
+@[simp] theorem evtHandles_clientsAlive (s : Side) (ev : Evt) : (evtHandles s ev).clientsAlive = s.clientsAlive := by
+  cases ev <;> rfl
+
+theorem clientInv_evt (s s' : Side) (ev : Evt) (e' : Ep) (m : Option Msg) (h : ClientInv s)
+    (he : handleEvt s.ep ev = some (e', m)) (hep : s'.ep = e') (hne : ev ≠ .allClientsDropped)
+    (hq : s'.connQ = s.connQ) (hc : s'.clientsAlive = s.clientsAlive) : ClientInv s' := by
+  have ha : s'.ep.allClientsDropped = s.ep.allClientsDropped := by
+    rw [hep, handleEvt_acd _ _ _ _ he]
+    have : (ev == Evt.allClientsDropped) = false := by simpa using hne
+    simp [this]
+  exact ⟨by rw [ha, hq]; exact h.done, by rw [hc, hq, ha]; exact h.alive, by rw [hq]; exact h.last⟩
+
+theorem clientInv_step (s s' : Side) (inW inW' out : List Msg) (l : Lab)
+    (hs : stepSide s inW l = some (s', inW', out)) (h : ClientInv s) (hq : QType s)
+    (hw : ∀ m ∈ inW, isCtl m = true) : ClientInv s' := by
+  cases l <;> simp only [stepSide] at hs
+  case startConnect p w =>
+    split at hs
+    · rename_i hg
+      simp only [Option.some.injEq, Prod.mk.injEq] at hs; obtain ⟨rfl, _, _⟩ := hs
+      simp only [Bool.and_eq_true] at hg
+      obtain ⟨h1, h2⟩ := h.alive hg.1.1
+      refine ⟨fun h' => by rw [h2] at h'; simp at h', fun _ => ⟨?_, h2⟩, fun pre post hsp => ?_⟩
+      · simp [h1]
+      · rcases append_eq_split _ _ _ _ _ hsp with ⟨hp, _, _⟩ | ⟨post', _, hl⟩
+        · exact hp
+        · exact absurd (by rw [hl]; simp) h1
+    · simp at hs
+  case dropClients =>
+    split at hs
+    · rename_i hg
+      simp only [Option.some.injEq, Prod.mk.injEq] at hs; obtain ⟨rfl, _, _⟩ := hs
+      obtain ⟨h1, h2⟩ := h.alive hg
+      refine ⟨fun h' => by rw [h2] at h'; simp at h', fun h' => by simp at h', fun pre post hsp => ?_⟩
+      rcases append_eq_split _ _ _ _ _ hsp with ⟨hp, _, _⟩ | ⟨post', _, hl⟩
+      · exact hp
+      · exact absurd (by rw [hl]; simp) h1
+    · simp at hs
+  case dispConn =>
+    (repeat' split at hs) <;> first
+      | (simp at hs; done)
+      | (rename_i ev rest hq' _ e' m he
+         simp only [Option.some.injEq, Prod.mk.injEq] at hs; obtain ⟨rfl, _, _⟩ := hs
+         have ha := handleEvt_acd _ _ _ _ he
+         have hnd : s.ep.allClientsDropped = false := by
+           cases hx : s.ep.allClientsDropped with
+           | false => rfl
+           | true => have := h.done hx; rw [hq'] at this; simp at this
+         refine ⟨fun h' => ?_, fun h' => ?_, fun pre post hsp => ?_⟩
+         · simp only [ha, hnd, Bool.false_or, beq_iff_eq] at h'
+           subst h'; exact h.last [] rest (by rw [hq']; rfl)
+         · obtain ⟨h1, _⟩ := h.alive h'
+           rw [hq'] at h1
+           refine ⟨fun hin => h1 (by simp [hin]), ?_⟩
+           simp only [ha, hnd, Bool.false_or, beq_eq_false_iff_ne, ne_eq]
+           intro hev; apply h1; simp [hev]
+         · have hsp' : rest = pre ++ Evt.allClientsDropped :: post := hsp
+           exact h.last (ev :: pre) post (by rw [hq', hsp']; rfl))
+  case dispPort =>
+    (repeat' split at hs) <;> first
+      | (simp at hs; done)
+      | (rename_i ev rest hq' _ e' m he
+         simp only [Option.some.injEq, Prod.mk.injEq] at hs; obtain ⟨rfl, _, _⟩ := hs
+         have hpe := hq.port ev (by rw [hq']; simp)
+         exact clientInv_evt s _ ev e' m h he (by simp) (by intro h'; subst h'; simp [isPortEvt] at hpe) (by simp)
+           (by simp))
+  case dispListener =>
+    (repeat' split at hs) <;> first
+      | (simp at hs; done)
+      | (rename_i _ e' m he
+         simp only [Option.some.injEq, Prod.mk.injEq] at hs; obtain ⟨rfl, _, _⟩ := hs
+         exact clientInv_evt s _ _ e' m h he rfl (by simp) rfl rfl)
+  case goodbye =>
+    (repeat' split at hs) <;> first
+      | (simp at hs; done)
+      | (rename_i _ e' m he
+         simp only [Option.some.injEq, Prod.mk.injEq] at hs; obtain ⟨rfl, _, _⟩ := hs
+         exact clientInv_evt s _ _ e' m h he rfl (by simp) rfl rfl)
+  case deliver =>
+    (repeat' split at hs) <;> first
+      | (simp at hs; done)
+      | (rename_i m rest _ e' em he
+         simp only [Option.some.injEq, Prod.mk.injEq] at hs; obtain ⟨rfl, _, _⟩ := hs
+         obtain ⟨f1, _⟩ := handleRx_flags _ _ _ _ he (hw m (by simp))
+         exact clientInv_congr s _ h (by simp) (by simp) (by simp only [rxHandles_ep]; exact f1))
+  all_goals
+    (repeat' split at hs) <;> first
+      | (simp at hs; done)
+      | (simp only [Option.some.injEq, Prod.mk.injEq] at hs; obtain ⟨rfl, _, _⟩ := hs
+         exact ⟨h.done, h.alive, h.last⟩)
+
+/-- the three kinds of steps of a side, with what the flag layer needs -/
+theorem stepSide_flags (s s' : Side) (inW inW' out : List Msg) (l : Lab)
+    (h : stepSide s inW l = some (s', inW', out)) (hq : QType s) (hc : ClientInv s) :
+    (SameFlags s'.ep s.ep ∧ s'.ep.clientDroppedQueued ≤ s.ep.clientDroppedQueued ∧ inW' = inW ∧ out = []) ∨
+    (∃ ev m, handleEvt s.ep ev = some (s'.ep, m) ∧ out = emitList m ∧ inW' = inW ∧ s.ep.goodbyeSent = false ∧
+      (isConnReq ev = true → s.ep.allClientsDropped = false)) ∨
+    (∃ m e' em, inW = m :: inW' ∧ out = [] ∧ handleRx s.rxView m = .ok (e', em) ∧
+      s'.ep = requeue { e' with listenerDropped := s.ep.listenerDropped } em) := by
+  cases l <;> simp only [stepSide] at h
+  case dispConn =>
+    (repeat' split at h) <;> first
+      | (simp at h; done)
+      | (rename_i hd _ ev rest hq' _ e' m he
+         simp only [Option.some.injEq, Prod.mk.injEq] at h; obtain ⟨rfl, rfl, rfl⟩ := h
+         refine Or.inr (Or.inl ⟨ev, m, he, rfl, rfl, by simpa [Side.dispatching] using hd, fun _ => ?_⟩)
+         cases hx : s.ep.allClientsDropped with
+         | false => rfl
+         | true => have := hc.done hx; rw [hq'] at this; simp at this)
+  case dispPort =>
+    (repeat' split at h) <;> first
+      | (simp at h; done)
+      | (rename_i hd _ ev rest hq' _ e' m he
+         simp only [Option.some.injEq, Prod.mk.injEq] at h; obtain ⟨rfl, rfl, rfl⟩ := h
+         refine Or.inr (Or.inl ⟨ev, m, by simpa using he, rfl, rfl, by simpa [Side.dispatching] using hd, fun hr => ?_⟩)
+         have := isPortEvt_noReq ev (hq.port ev (by rw [hq']; simp)); rw [this] at hr; simp at hr)
+  case dispListener =>
+    (repeat' split at h) <;> first
+      | (simp at h; done)
+      | (rename_i hd _ e' m he
+         simp only [Option.some.injEq, Prod.mk.injEq] at h; obtain ⟨rfl, rfl, rfl⟩ := h
+         simp only [Bool.and_eq_true] at hd
+         exact Or.inr (Or.inl ⟨_, m, he, rfl, rfl, by simpa [Side.dispatching] using hd.1.1, fun hr => by simp [isConnReq] at hr⟩))
+  case goodbye =>
+    (repeat' split at h) <;> first
+      | (simp at h; done)
+      | (rename_i hd _ e' m he
+         simp only [Option.some.injEq, Prod.mk.injEq] at h; obtain ⟨rfl, rfl, rfl⟩ := h
+         simp only [Bool.and_eq_true] at hd
+         exact Or.inr (Or.inl ⟨_, m, he, rfl, rfl, by simpa [Side.dispatching] using hd.1, fun hr => by simp [isConnReq] at hr⟩))
+  case deliver =>
+    (repeat' split at h) <;> first
+      | (simp at h; done)
+      | (rename_i m rest _ e' em he
+         simp only [Option.some.injEq, Prod.mk.injEq] at h; obtain ⟨rfl, rfl, rfl⟩ := h
+         exact Or.inr (Or.inr ⟨m, e', em, rfl, rfl, he, by simp⟩))
+  case dropListener =>
+    (repeat' split at h) <;> first
+      | (simp at h; done)
+      | (simp only [Option.some.injEq, Prod.mk.injEq] at h; obtain ⟨rfl, rfl, rfl⟩ := h
+         exact Or.inl ⟨⟨rfl, rfl, rfl, rfl, rfl, rfl⟩, Nat.zero_le _, rfl, rfl⟩)
+  all_goals
+    (repeat' split at h) <;> first
+      | (simp at h; done)
+      | (simp only [Option.some.injEq, Prod.mk.injEq] at h; obtain ⟨rfl, rfl, rfl⟩ := h
+         exact Or.inl ⟨⟨rfl, rfl, rfl, rfl, rfl, rfl⟩, Nat.le_refl _, rfl, rfl⟩)
+
+/-- one side steps: both flag invariants it takes part in are preserved -/
+theorem flag_step_side (x y x' : Side) (wxy wyx inW' out : List Msg) (l : Lab)
+    (hs : stepSide x wyx l = some (x', inW', out))
+    (F1 : FlagInv x.ep y.ep wxy) (F2 : FlagInv y.ep x.ep wyx) (hq : QType x) (hc : ClientInv x)
+    (hw : ∀ m ∈ wyx, isCtl m = true) :
+    FlagInv x'.ep y.ep (wxy ++ out) ∧ FlagInv y.ep x'.ep inW' := by
+  rcases stepSide_flags x x' wyx inW' out l hs hq hc with ⟨sf, hcd, rfl, rfl⟩ | ⟨ev, m, he, rfl, rfl, hg, hr⟩ | ⟨m, e', em, rfl, rfl, he, hep⟩
+  · simp only [List.append_nil]
+    exact ⟨⟨by rw [sf.acd]; exact F1.cf, by rw [sf.ld]; exact F1.lf, by rw [sf.gbs]; exact F1.gb, F1.acf, F1.rcd, F1.cdq,
+            by rw [sf.gbs]; exact F1.last⟩,
+           ⟨by rw [sf.rcd]; exact F2.cf, by rw [sf.rld]; exact F2.lf, by rw [sf.gbr]; exact F2.gb, F2.acf,
+            by rw [sf.rcd]; exact F2.rcd, by rw [sf.rcd]; exact Nat.le_trans hcd F2.cdq, by rw [sf.gbr]; exact F2.last⟩⟩
+  · exact ⟨flag_x_evt x.ep x'.ep y.ep wxy ev m he F1 hg hr, flag_y_evt y.ep x.ep x'.ep inW' ev m he F2⟩
+  · simp only [List.append_nil]
+    have hctl := hw m (by simp)
+    exact ⟨flag_x_rx x.ep x.rxView e' x'.ep y.ep wxy m em he hctl F1 ⟨rfl, rfl⟩ (by rw [hep]; exact ⟨rfl, rfl, rfl⟩),
+           flag_y_rx y.ep x.ep x.rxView e' inW' m em he hctl F2 ⟨rfl, rfl, rfl, rfl⟩ x'.ep
+             (by rw [hep]; exact ⟨rfl, rfl, rfl, rfl⟩)⟩
+
 end Remoc.Table.Sys
